@@ -1,25 +1,11 @@
 import Abverif.Model.Messages
-/- TEMPORARY STUB (replaced once Model/Uri.lean exists) -/
+import Abverif.Model.Uri
+/-
+The schema engine instantiated with the recognisers regenerated from message.py:
+`check_or_raise_uri` ↦ `Uri.check` (the six `_URI_PAT_*`), `_CUSTOM_ATTRIBUTE.match` ↦ `Uri.customAttr`.
+-/
 namespace Abverif.Wamp
 
-def stubLoose (c : Char) : Bool := !(c == ' ' || c == '\n' || c == '\t' || c == '.' || c == '#')
-def stubSplit : List Char → List (List Char)
-  | [] => [[]]
-  | c :: cs => if c == '.' then [] :: stubSplit cs else match stubSplit cs with | [] => [[c]] | p :: ps => (c :: p) :: ps
-def stubUri (_strict ae ale : Bool) (s : Str) : Bool :=
-  let s := if s.getLast? == some '\n' then s.dropLast else s
-  let comps := stubSplit s
-  comps.all (·.all stubLoose) &&
-  (if ale then comps.dropLast.all (!·.isEmpty) else if ae then true else comps.all (!·.isEmpty))
-
-def stubLow (c : Char) : Bool := ('a' ≤ c && c ≤ 'z')
-def stubWord (c : Char) : Bool := stubLow c || c.isDigit || c == '_'
-def stubCustom (s : Str) : Bool :=
-  let s := if s.getLast? == some '\n' then s.dropLast else s
-  match s with
-  | ['x', '_'] => true
-  | 'x' :: '_' :: c :: d :: rest => stubLow c && stubWord d && rest.all stubWord
-  | _ => false
-def oracles : Oracles := ⟨stubUri, stubCustom⟩
+def oracles : Oracles := ⟨Uri.check, Uri.customAttr⟩
 
 end Abverif.Wamp
